@@ -28,7 +28,7 @@ DUNDERS = {"__deepcopy__", "__copy__", "__reduce__", "__reduce_ex__", "__getstat
 
 def run(repo, res, tier):
     res.rules = ["K1 returns deepcopy(self)", "K2 parent detach restored on all exits", "K3 no copy customisation",
-                 "K4 no mutated class-level containers", "K5 writes target the copy"]
+                 "K4 no mutated class-level containers", "K5 writes target the copy", "K6 keyword overrides / lazy style kwargs not shared (ORIGIN)"]
     geo = repo.cls("BaseGeo")
     res.require("copy" in geo.methods, "anchor vanished: BaseGeo.copy")
     fn = geo.methods["copy"]
